@@ -1022,8 +1022,7 @@ fn evaluate(
                             .ok_or(MpcError::MissingGarbledGate(w))??;
                         let garbling_key = GarblingKey::new(label_x[p], label_y[p], w, i as u8);
                         let garbled_row = garbled_gate[i].clone();
-                        let (r, mac_r, label_share) =
-                            decrypt(&garbling_key, &garbled_row).expect("decryption failed");
+                        let (r, mac_r, label_share) = decrypt(&garbling_key, &garbled_row)?;
                         let Some(mac_r_for_eval) = mac_r.get(p_eval).copied() else {
                             return Err(MpcError::InvalidInputMacForInst(w).into());
                         };
